@@ -391,7 +391,8 @@ def parts(tier):
         return [Part('all-cells', check_all_cells, strategy=s_all_cells(), examples=3, shards=4),
                 Part('random-cell', check_one_cell, strategy=s_one_cell(), examples=3000, shards=4)]
     return [Part('all-cells', check_all_cells, strategy=s_all_cells(), examples=8, shards=16),
-            Part('random-cell', check_one_cell, strategy=s_one_cell(), examples=40000, shards=16)]
+            Part('random-cell', check_one_cell, strategy=s_one_cell(), examples=40000, shards=16, fuzz_runs=150000,
+                 fuzz_shards=8)]
 
 
 def selftest():
